@@ -106,7 +106,7 @@ def stub_part(ctx):
     rnd = ctx.rng
     lives = [1, 2, 3, 7, 30] if ctx.quick else [1, 2, 3, 4, 7, 12, 30, 60, 100]
     terms, descs = [], []
-    reps = ctx.n(1, 4)
+    reps = ctx.n(1, 2)
     for econm in (1, 2, 3, 4):
         for enduse in configs.ENDUSES:
             for plant in range(1, 10):
@@ -158,7 +158,7 @@ def run_dict(R, comp='economics'):
 
 def gen_inputs(ctx):
     rnd = ctx.rng
-    cfgs = configs.grid(ctx, ctx.n(40, 1200), resmodels=(3, 4) if ctx.quick else (1, 2, 3, 4))
+    cfgs = configs.grid(ctx, ctx.n(40, 500), resmodels=(3, 4) if ctx.quick else (1, 2, 3, 4))
     texts = [('synthetic', runner.params_to_text(c)) for c in cfgs]
     texts += [('example:' + n, t) for n, t in configs.example_texts(slow=not ctx.quick)]
     return texts
